@@ -1,7 +1,8 @@
 """C11  Neighbour queries agree with brute-force search under the tree's metric.
 
 Decided: tree memo key (F-CACHE); units of tree inputs / query points / radius / distances incl.
-BallTree-vs-KDTree sibling agreement (F-UNIT); element-kind tables of both classes (F-TABLE)."""
+BallTree-vs-KDTree sibling agreement (F-UNIT); element-kind tables of both classes (F-TABLE).
+arguments handed to the sklearn trees sit in their own slots and sort_results reaches a k-nearest query unweakened; the query array stays point-major (a transposition needs a guard that excludes a square batch)."""
 
 from ..rules import cache, table, units
 from ..rules.common import dataflow, emit
